@@ -115,6 +115,7 @@ type c07Dev struct {
 type c07Row struct {
 	t, f, u c07Vals
 	fp      [c07D]bool // key present in the free entry
+	tp      [c07D]bool // key present in the total entry (the device EXPOSES the resource name)
 	hasF    bool       // the free map has an entry for the minor
 }
 type c07Ledger struct {
@@ -134,6 +135,9 @@ func c07ReadDR(t int, dr deviceResources, rows map[[2]int]*c07Row, which int) {
 		switch which {
 		case 0:
 			row.t = v
+			for k := 0; k < c07D; k++ {
+				_, row.tp[k] = rl[c07Res[t][k]]
+			}
 		case 1:
 			row.f = v
 			row.hasF = true
@@ -1867,6 +1871,7 @@ func TestVerifC07Path(t *testing.T) {
 	}
 	heteroEnv := os.Getenv("VERIF_C07_HETERO") // "1": every case, "0": never, unset: 1 case in 8 (open known finding)
 	stale := os.Getenv("VERIF_C07_STALE") == "1"
+	driftEnv := os.Getenv("VERIF_C07_DRIFT") // "1": every case, "0": never, unset: 1 case in 10 runs the directed memory / ratio drift pattern
 	node := &corev1.Node{ObjectMeta: metav1.ObjectMeta{Name: c07Node}}
 	suit := newPluginTestSuit(t, []*corev1.Node{node})
 	p, err := suit.proxyNew(context.TODO(), getDefaultArgs(), suit.Framework)
@@ -1896,12 +1901,17 @@ func TestVerifC07Path(t *testing.T) {
 		}
 		c.inPlay = []int{0}
 		c.da[0] = 3
-		// inventory: 1-4 GPUs, all exposing gpu-core / gpu-memory / gpu-memory-ratio (what koordlet reports)
+		// inventory: 1-4 GPUs, all exposing gpu-core / gpu-memory (BYTES: 16Gi or 80Gi) / gpu-memory-ratio (what koordlet reports)
+		drift := driftEnv == "1" || (driftEnv != "0" && !hetero && r.Chance(1, 10))
 		ng := r.Range(1, 4)
+		if drift {
+			ng = 1
+			h.Tag("stream:drift-directed")
+		}
 		perm := r.Perm(6)
-		mem := int64(r.Pick([]int64{16, 80}))
+		mem := int64(r.Pick([]int64{16 << 30, 80 << 30}))
 		for i := 0; i < ng; i++ {
-			d := c07Dev{minor: perm[i], healthy: !r.Chance(1, 10), res: c07Vec{100, mem, 100}, numa: -1}
+			d := c07Dev{minor: perm[i], healthy: drift || !r.Chance(1, 10), res: c07Vec{100, mem, 100}, numa: -1}
 			if hetero && r.Chance(1, 3) {
 				// a device that does not expose gpu-core (or gpu-memory-ratio).  A device without gpu-memory is left out on
 				// purpose: a gpu-core+gpu-memory pod lands on it and fillGPUTotalMem then divides by the missing total
@@ -1917,6 +1927,174 @@ func TestVerifC07Path(t *testing.T) {
 		var pods []*c07PathPod
 		steps := r.Range(3, 9)
 		scheduled := 0
+		schedPod := func(id, cnt int, req c07Vec, podReq corev1.ResourceList) {
+			pod := c07Pod(id, nil, "")
+			pod.Spec.Containers = []corev1.Container{{Name: "c", Resources: corev1.ResourceRequirements{Requests: podReq, Limits: podReq}}}
+			cs := framework.NewCycleState()
+			var fst *fwktype.Status
+			var result apiext.DeviceAllocations
+			reserved := false
+			if h.Guard(func() {
+				if _, st := pl.PreFilter(context.TODO(), cs, pod, nil); !st.IsSuccess() {
+					fst = st
+					return
+				}
+				fst = pl.Filter(context.TODO(), cs, pod, nodeInfo)
+				if !fst.IsSuccess() {
+					return
+				}
+				if st := pl.Reserve(context.TODO(), cs, pod, c07Node); !st.IsSuccess() {
+					fst = st
+					return
+				}
+				reserved = true
+				if state, st := getPreFilterState(cs); st.IsSuccess() {
+					result = state.allocationResult
+				}
+			}) {
+				h.Op("alloc 0 1 %d 0 %s 0 0 0 0 0", cnt, req.tok())
+				h.Obs("panic")
+				return
+			}
+			h.Tag("entry:Plugin.PreFilter+Filter+Reserve")
+			q := &c07Request{t: 0, req: req, desired: cnt}
+			res := c07ResultOf(0, result[schedulingv1alpha1.GPU], !reserved)
+			h.Op("alloc 0 1 %d 0 %s 0 0 0 %d %s", cnt, req.tok(), vB(res.ok), c07IntsTok(res.minors))
+			before := c.cur
+			// observation of the verdict: the ledger the allocator read is the one BEFORE Reserve committed
+			if !res.ok {
+				h.Obs("alloc fail")
+				h.Tag("alloc:fail")
+			} else {
+				ms := append([]int(nil), res.minors...)
+				sort.Ints(ms)
+				h.Obs("alloc ok %d %s", len(ms), vIntsI(ms))
+				cov := true
+				for i, m := range res.minors {
+					row := before.rows[[2]int{0, m}]
+					if row == nil || !row.hasF {
+						return
+					}
+					for k := 0; k < c07D; k++ {
+						if req[k] >= 0 && !row.fp[k] {
+							cov = false
+						}
+					}
+					_ = i
+				}
+				h.Obs("cov %d", vB(cov))
+				h.Tag("alloc:ok")
+			}
+			// oracle (the statement, on the value ledger before the commit)
+			qual := c07Qualifying(before, q)
+			for m := range qual {
+				if before.row(0, m).t == (c07Vals{}) {
+					delete(qual, m) // unhealthy / zero device
+				}
+			}
+			if !res.ok {
+				if len(qual) >= cnt {
+					h.Fail("C07:alloc-incomplete", "request %v x%d refused (%v) although GPUs %v qualify", req, cnt, fst, qual)
+				}
+				return
+			}
+			seen := map[int]bool{}
+			onQuirk := false
+			for _, m := range res.minors {
+				if seen[m] {
+					h.Fail("C07:alloc-unsound:duplicate-minor", "minor %d returned twice", m)
+				}
+				seen[m] = true
+				if !qual[m] {
+					row := before.row(0, m)
+					// the open known finding, and only it: the device does not expose a requested non-zero resource name
+					// and fits in every name it does expose
+					rr := before.rows[[2]int{0, m}]
+					missing, restFits := false, row.t != (c07Vals{})
+					for k := 0; k < c07D; k++ {
+						if req.val(k) > 0 && rr != nil && rr.hasF && !rr.fp[k] {
+							missing = true
+						} else if req.val(k) > row.f[k] {
+							restFits = false
+						}
+					}
+					if hetero && missing && restFits {
+						onQuirk = true
+						h.Fail("C07:missing-dimension-accepted", "GPU %d chosen for per-GPU request %v although it does not expose every requested resource name: free %v total %v used %v", m, req, row.f, row.t, row.u)
+					} else {
+						h.Fail("C07:alloc-unsound:not-enough-free", "GPU %d chosen for per-GPU request %v: free %v total %v used %v", m, req, row.f, row.t, row.u)
+					}
+				}
+			}
+			if len(res.minors) != cnt {
+				h.Fail("C07:alloc-unsound:count", "%d GPUs returned, %d requested", len(res.minors), cnt)
+			}
+			g := c07GroupsOf(result)
+			for i, a := range g[0] {
+				for k := 0; k < c07D; k++ {
+					if req[k] >= 0 && a.vec[k] != req[k] {
+						h.Fail("C07:alloc-unsound:amount", "GPU %d allocated %v, per-GPU request %v", a.minor, a.vec, req)
+					}
+				}
+				_ = i
+			}
+			// the commit Reserve made
+			h.Op("add %d %s", id, g.tok())
+			for _, tt := range g.types() {
+				c.noteAdd(tt, id, g[tt], before)
+			}
+			kind := "commit"
+			if onQuirk {
+				kind = "raw-add" // rests on the known finding: the commit puts an amount on a name the device does not expose
+			}
+			// the genuine defect of the memory / memory-ratio pair: fillGPUTotalMem adds the dimension the pod did NOT request
+			// (derived from the other one) after the fit check; it is committed even if the device has less of it free
+			for _, a := range g[0] {
+				row := before.row(0, a.minor)
+				for k := 1; k < c07D; k++ {
+					if req[k] < 0 && a.vec[k] >= 0 && a.vec[k] > row.f[k] && (before.rows[[2]int{0, a.minor}] != nil && before.rows[[2]int{0, a.minor}].tp[k]) {
+						h.Fail("C07:derived-memory-dimension-overcommit", "GPU %d: per-GPU request %v fits, but the derived dimension %d = %d committed by fillGPUTotalMem exceeds the free amount %d (total %d, used before %d)", a.minor, req, k, a.vec[k], row.f[k], row.t[k], row.u[k])
+						kind = "raw-add"
+					}
+				}
+			}
+			if hetero {
+				// "for every resource it EXPOSES": fillGPUTotalMem adds the derived gpu-memory / gpu-memory-ratio to the
+				// allocation; on a device that does not expose that name the amount is not an over-commit of the device
+				for _, a := range g[0] {
+					if rr := before.rows[[2]int{0, a.minor}]; rr != nil && rr.hasF {
+						for k := 0; k < c07D; k++ {
+							if a.vec[k] >= 0 && !rr.tp[k] {
+								kind = "raw-add"
+								h.Tag("hetero:amount-on-unexposed-name")
+							}
+						}
+					}
+				}
+			}
+			c.cur = c.emitLedger()
+			c.checkLedger(kind, before, c.cur)
+			pods = append(pods, &c07PathPod{id: id, pod: pod, cs: cs, alloc: result, g: g})
+			scheduled++
+			h.Tag("op:commit")
+		}
+		if drift {
+			// directed: k pods requesting gpu-memory in BYTES with a share that is not a whole percent, then one pod
+			// requesting by RATIO everything the cache believes to be left
+			k := r.Range(2, 8)
+			share := int64(r.Pick([]int64{19, 25, 77, 125})) // tenths of a percent
+			for i := 0; i < k; i++ {
+				id := c.nextPod
+				c.nextPod++
+				b := mem * share / 1000
+				schedPod(id, 1, c07Vec{-1, b, -1}, corev1.ResourceList{apiext.ResourceGPUMemory: *resource.NewQuantity(b, resource.BinarySI)})
+			}
+			if left := c.cur.row(0, c.inv[0][0].minor).f[2]; left > 0 {
+				id := c.nextPod
+				c.nextPod++
+				schedPod(id, 1, c07Vec{-1, -1, left}, corev1.ResourceList{apiext.ResourceGPUMemoryRatio: *resource.NewQuantity(left, resource.DecimalSI)})
+			}
+		}
 		for s := 0; s < steps; s++ {
 			x := r.Intn(100)
 			switch {
@@ -1958,149 +2136,12 @@ func TestVerifC07Path(t *testing.T) {
 					podReq[apiext.ResourceGPUMemoryRatio] = *resource.NewQuantity(req[2], resource.DecimalSI)
 					h.Tag("shape:ratio-only")
 				default: // gpu-core + gpu-memory (bytes)
-					req = c07Vec{int64(r.Pick([]int64{20, 50, 100})), int64(r.Pick([]int64{4, 8, 16, 40})), -1}
+					req = c07Vec{int64(r.Pick([]int64{20, 50, 100})), mem * int64(r.Pick([]int64{19, 77, 125, 250, 333, 500})) / 1000, -1}
 					podReq[apiext.ResourceGPUCore] = *resource.NewQuantity(req[0], resource.DecimalSI)
 					podReq[apiext.ResourceGPUMemory] = *resource.NewQuantity(req[1], resource.BinarySI)
 					h.Tag("shape:core+memory")
 				}
-				pod := c07Pod(id, nil, "")
-				pod.Spec.Containers = []corev1.Container{{Name: "c", Resources: corev1.ResourceRequirements{Requests: podReq, Limits: podReq}}}
-				cs := framework.NewCycleState()
-				var fst *fwktype.Status
-				var result apiext.DeviceAllocations
-				reserved := false
-				if h.Guard(func() {
-					if _, st := pl.PreFilter(context.TODO(), cs, pod, nil); !st.IsSuccess() {
-						fst = st
-						return
-					}
-					fst = pl.Filter(context.TODO(), cs, pod, nodeInfo)
-					if !fst.IsSuccess() {
-						return
-					}
-					if st := pl.Reserve(context.TODO(), cs, pod, c07Node); !st.IsSuccess() {
-						fst = st
-						return
-					}
-					reserved = true
-					if state, st := getPreFilterState(cs); st.IsSuccess() {
-						result = state.allocationResult
-					}
-				}) {
-					h.Op("alloc 0 1 %d 0 %s 0 0 0 0 0", cnt, req.tok())
-					h.Obs("panic")
-					continue
-				}
-				h.Tag("entry:Plugin.PreFilter+Filter+Reserve")
-				q := &c07Request{t: 0, req: req, desired: cnt}
-				res := c07ResultOf(0, result[schedulingv1alpha1.GPU], !reserved)
-				h.Op("alloc 0 1 %d 0 %s 0 0 0 %d %s", cnt, req.tok(), vB(res.ok), c07IntsTok(res.minors))
-				before := c.cur
-				// observation of the verdict: the ledger the allocator read is the one BEFORE Reserve committed
-				if !res.ok {
-					h.Obs("alloc fail")
-					h.Tag("alloc:fail")
-				} else {
-					ms := append([]int(nil), res.minors...)
-					sort.Ints(ms)
-					h.Obs("alloc ok %d %s", len(ms), vIntsI(ms))
-					cov := true
-					for i, m := range res.minors {
-						row := before.rows[[2]int{0, m}]
-						if row == nil || !row.hasF {
-							continue
-						}
-						for k := 0; k < c07D; k++ {
-							if req[k] >= 0 && !row.fp[k] {
-								cov = false
-							}
-						}
-						_ = i
-					}
-					h.Obs("cov %d", vB(cov))
-					h.Tag("alloc:ok")
-				}
-				// oracle (the statement, on the value ledger before the commit)
-				qual := c07Qualifying(before, q)
-				for m := range qual {
-					if before.row(0, m).t == (c07Vals{}) {
-						delete(qual, m) // unhealthy / zero device
-					}
-				}
-				if !res.ok {
-					if len(qual) >= cnt {
-						h.Fail("C07:alloc-incomplete", "request %v x%d refused (%v) although GPUs %v qualify", req, cnt, fst, qual)
-					}
-					continue
-				}
-				seen := map[int]bool{}
-				onQuirk := false
-				for _, m := range res.minors {
-					if seen[m] {
-						h.Fail("C07:alloc-unsound:duplicate-minor", "minor %d returned twice", m)
-					}
-					seen[m] = true
-					if !qual[m] {
-						row := before.row(0, m)
-						// the open known finding, and only it: the device does not expose a requested non-zero resource name
-						// and fits in every name it does expose
-						rr := before.rows[[2]int{0, m}]
-						missing, restFits := false, row.t != (c07Vals{})
-						for k := 0; k < c07D; k++ {
-							if req.val(k) > 0 && rr != nil && rr.hasF && !rr.fp[k] {
-								missing = true
-							} else if req.val(k) > row.f[k] {
-								restFits = false
-							}
-						}
-						if hetero && missing && restFits {
-							onQuirk = true
-							h.Fail("C07:missing-dimension-accepted", "GPU %d chosen for per-GPU request %v although it does not expose every requested resource name: free %v total %v used %v", m, req, row.f, row.t, row.u)
-						} else {
-							h.Fail("C07:alloc-unsound:not-enough-free", "GPU %d chosen for per-GPU request %v: free %v total %v used %v", m, req, row.f, row.t, row.u)
-						}
-					}
-				}
-				if len(res.minors) != cnt {
-					h.Fail("C07:alloc-unsound:count", "%d GPUs returned, %d requested", len(res.minors), cnt)
-				}
-				g := c07GroupsOf(result)
-				for i, a := range g[0] {
-					for k := 0; k < c07D; k++ {
-						if req[k] >= 0 && a.vec[k] != req[k] {
-							h.Fail("C07:alloc-unsound:amount", "GPU %d allocated %v, per-GPU request %v", a.minor, a.vec, req)
-						}
-					}
-					_ = i
-				}
-				// the commit Reserve made
-				h.Op("add %d %s", id, g.tok())
-				for _, tt := range g.types() {
-					c.noteAdd(tt, id, g[tt], before)
-				}
-				kind := "commit"
-				if onQuirk {
-					kind = "raw-add" // rests on the known finding: the commit puts an amount on a name the device does not expose
-				}
-				if hetero {
-					// "for every resource it EXPOSES": fillGPUTotalMem adds the derived gpu-memory / gpu-memory-ratio to the
-					// allocation; on a device that does not expose that name the amount is not an over-commit of the device
-					for _, a := range g[0] {
-						if rr := before.rows[[2]int{0, a.minor}]; rr != nil && rr.hasF {
-							for k := 0; k < c07D; k++ {
-								if a.vec[k] >= 0 && !rr.fp[k] {
-									kind = "raw-add"
-									h.Tag("hetero:amount-on-unexposed-name")
-								}
-							}
-						}
-					}
-				}
-				c.cur = c.emitLedger()
-				c.checkLedger(kind, before, c.cur)
-				pods = append(pods, &c07PathPod{id: id, pod: pod, cs: cs, alloc: result, g: g})
-				scheduled++
-				h.Tag("op:commit")
+				schedPod(id, cnt, req, podReq)
 			case x < 70: // the informer confirms the binding: the annotation PreBind wrote appears on the assigned pod
 				if len(pods) == 0 {
 					continue
